@@ -8,7 +8,7 @@ git reset -q --hard HEAD; git clean -qfd -e out
 echo "== demo WITHOUT change"; timeout 600 bash $o/demo/run.sh > /tmp/seed_without.log 2>&1; w0=$?; echo "exit=$w0"
 git reset -q --hard HEAD; git clean -qfd -e out
 git apply $o/patch.diff || { echo "PATCH DOES NOT APPLY"; exit 3; }
-echo "== build"; go build ./... ; b=$?; echo "exit=$b"
+echo "== build"; go build ./cmd/... ./pkg/... ./internal/... ./examples/... ; b=$?; echo "exit=$b"
 echo "== demo WITH change"; timeout 600 bash $o/demo/run.sh > /tmp/seed_with.log 2>&1; w1=$?; echo "exit=$w1"
 # demos may have added test files; keep only the patch for the pinned run
 git reset -q --hard HEAD; git clean -qfd -e out; git apply $o/patch.diff
